@@ -469,7 +469,7 @@ class ToolFail(Exception):
 
 def make_tool(kind):
     return {"clustalo": tool_clustalo, "muscle3": tool_muscle3, "muscle5": tool_muscle5,
-            "mafft": tool_mafft, "stublocal": tool_stub}[kind]
+            "mafft": tool_mafft, "stublocal": tool_stub, "stubmsa": tool_stubmsa}[kind]
 
 
 def _common_msa(proc, in_path, report):
@@ -660,6 +660,39 @@ def tool_muscle5(proc):
         rng, recs, rows, order, tree, text, label_tree = _common_msa(proc, inp, report)
         if script.get("exit", 0) == 0 or script.get("partial_output"):
             with open(opts["-output"], "w") as f:
+                f.write(text)
+            _count_out_fault(script)
+    except ToolFail as e:
+        report["tool_error"] = e.msg
+        return e.code, "", e.msg + "\n", report
+    return _finish(proc, report)
+
+
+def tool_stubmsa(proc):
+    """The program behind the bare MSAApp subclass: -in FILE -out FILE -seqtype protein|nucleotide [-matrix FILE]."""
+    script = proc.rec.script
+    report = {"argv": list(proc.args), "cwd": proc.launch_cwd}
+    extras, a = split_extras(proc.args[1:])
+    report["extras"] = extras
+    valued = {"-in", "-out", "-seqtype", "-matrix"}
+    opts, flags = {}, set()
+    i = 0
+    try:
+        while i < len(a):
+            if a[i] in valued:
+                opts[a[i]] = a[i + 1]
+                i += 2
+            else:
+                raise ToolFail(f"unexpected argument {a[i]}")
+        report["opts"] = dict(opts)
+        report["flags"] = sorted(flags)
+        if "-in" not in opts or "-out" not in opts or opts.get("-seqtype") not in ("protein", "nucleotide"):
+            raise ToolFail("-in, -out and -seqtype protein|nucleotide are required")
+        rng, recs, rows, order, tree, text, label_tree = _common_msa(proc, opts["-in"], report)
+        if "-matrix" in opts:
+            report["matrix_in"] = parse_matrix_file(opts["-matrix"])
+        if script.get("exit", 0) == 0 or script.get("partial_output"):
+            with open(opts["-out"], "w") as f:
                 f.write(text)
             _count_out_fault(script)
     except ToolFail as e:
